@@ -630,6 +630,65 @@ impl Family for Chk5 {
     }
 }
 
+/// MANY: nine or ten like white pieces (promotions make that legal): all eight squares of one
+/// row plus one or two more anywhere, both kings anywhere, optionally one black rook anywhere;
+/// both sides to move. For anything that assumes "never more than eight of a kind".
+pub struct Many {
+    pub kind: u8,
+}
+impl Family for Many {
+    fn name(&self) -> String {
+        format!("MANY:{}", kind_letter_lower(self.kind).to_ascii_uppercase())
+    }
+    fn len(&self) -> u64 {
+        6 * 64 * 65 * 64 * 64 * 65 * 2
+    }
+    fn decode(&self, mut i: u64) -> Option<Pos> {
+        let mut take = |n: u64| -> u64 {
+            let v = i % n;
+            i /= n;
+            v
+        };
+        let row = 1 + take(6) as i8;
+        let e1 = take(64) as u8;
+        let e2 = take(65) as u8; // 64 = no tenth piece
+        let wk = take(64) as u8;
+        let bk = take(64) as u8;
+        let br = take(65) as u8; // 64 = no black rook
+        let stm = take(2) as u8;
+        let mut p = Pos::empty();
+        for f in 0..8 {
+            p.board[sq_at(f, row)? as usize] = pc(WHITE, self.kind);
+        }
+        let mut put = |sq: u8, piece: u8, p: &mut Pos| -> bool {
+            if p.board[sq as usize] != EMPTY {
+                return false;
+            }
+            p.board[sq as usize] = piece;
+            true
+        };
+        if !put(e1, pc(WHITE, self.kind), &mut p) {
+            return None;
+        }
+        if e2 < 64 && (e2 <= e1 || !put(e2, pc(WHITE, self.kind), &mut p)) {
+            return None;
+        }
+        if !put(wk, pc(WHITE, KING), &mut p) || !put(bk, pc(BLACK, KING), &mut p) {
+            return None;
+        }
+        if br < 64 && !put(br, pc(BLACK, ROOK), &mut p) {
+            return None;
+        }
+        p.stm = stm;
+        p.full = 60;
+        if p.is_legal_position() {
+            Some(p)
+        } else {
+            None
+        }
+    }
+}
+
 /// wraps a family and yields the colour-flipped twin of every member
 pub struct Flipped<'a>(pub &'a dyn Family);
 impl<'a> Family for Flipped<'a> {
